@@ -241,6 +241,9 @@ func (p *Parse) parseStructMember() *ast.StructMember {
 	if p.tk.T != token.Integer {
 		p.parseErr("expect tags.")
 	}
+	if p.tk.S.I < 0 || p.tk.S.I > 255 {
+		p.parseErr("tag " + p.tk.S.S + " out of range [0, 255]")
+	}
 	m := &ast.StructMember{}
 	m.Tag = int32(p.tk.S.I)
 
@@ -271,7 +274,13 @@ func (p *Parse) parseStructMember() *ast.StructMember {
 		return m
 	}
 	if p.tk.T == token.SquareLeft {
+		if m.Type.Type == token.TByte {
+			p.parseErr("fixed array of byte is not supported, use vector<byte>")
+		}
 		p.expect(token.Integer)
+		if p.tk.S.I < 0 {
+			p.parseErr("array length must not be negative")
+		}
 		m.Type = &ast.VarType{Type: token.TArray, TypeK: m.Type, TypeL: p.tk.S.I}
 		p.expect(token.SquarerRight)
 		p.expect(token.Semi)
